@@ -9,7 +9,7 @@
 From Coq Require Import ZArith Bool Field.
 From V Require Import Base.Loops Base.Loops3 Base.Arr Base.FieldSig.
 From V Require Import Gen.SolverHelpers Gen.CoreRestrict Model.Prolong.
-From V Require Import Proofs.RestrictW Proofs.RestrictTensor Proofs.Prolong.
+From V Require Import Model.Interp Proofs.RestrictW Proofs.RestrictTensor Proofs.Prolong Proofs.RestrictAdjoint.
 Local Open Scope Z_scope.
 
 Section C04.
@@ -86,6 +86,103 @@ Section C04b.
   Proof. exact (restrict_param_full p I J K). Qed.
 End C04b.
 
+(* --- the summed identity: restriction = transpose of prolongation ---------- *)
+(* <R r, g> over all interior coarse edges = <r, P g> over all interior fine
+   edges, for every fine residual r and every coarse field g with vanishing
+   tangential boundary values; P g = what the prolongation ADDS (prolong_* with a
+   zero fine field).  All seven patterns scd (coars scd d: direction d is
+   coarsened), all shapes with >= 2 coarse nodes per direction.  Hypotheses W*:
+   in a coarsened direction the weights are the transposed interpolation weights
+   -- discharged for the generated restrict_weights on a tensor mesh by
+   [restriction_weight_is_interpolation_weight] above.  Rx_spec/Ry_spec/Rz_spec
+   are what the generated kernel computes ([restrict_is_tensor_product]). *)
+Section C04adj.
+  Context {F : Type} {O : FOps F}.
+  Hypothesis Fth : field_theory F0 F1 Fadd Fmul Fsub Fopp Fdiv Finv (@eq F).
+  Variable scd : Z.
+  Variables cnx cny cnz nx ny nz : Z.          (* coarse / fine node counts *)
+  Variables wx wy wz : (Z -> F) * (Z -> F) * (Z -> F).
+  Variables xn yn zn : Z -> F.                 (* fine node coordinates *)
+  Hypothesis Hcx : 2 <= cnx.
+  Hypothesis Hcy : 2 <= cny.
+  Hypothesis Hcz : 2 <= cnz.
+  Hypothesis Hnx : nx = if coars scd 0 then 2*cnx - 1 else cnx.
+  Hypothesis Hny : ny = if coars scd 1 then 2*cny - 1 else cny.
+  Hypothesis Hnz : nz = if coars scd 2 then 2*cnz - 1 else cnz.
+  Hypothesis Wx : coars scd 0 = true -> forall I j, 1 <= I < cnx - 1 -> R1 wx I j = P1 xn j I.
+  Hypothesis Wy : coars scd 1 = true -> forall I j, 1 <= I < cny - 1 -> R1 wy I j = P1 yn j I.
+  Hypothesis Wz : coars scd 2 = true -> forall I j, 1 <= I < cnz - 1 -> R1 wz I j = P1 zn j I.
+
+  Theorem restriction_is_transpose_of_prolongation_x (rx g : Z -> Z -> Z -> F) :
+    (forall I J K, (J <= 0 \/ cny - 1 <= J \/ K <= 0 \/ cnz - 1 <= K) -> g I J K = 0%F) ->
+    Zsum 0 (cnx - 1) (fun I => Zsum 1 (cny - 1) (fun J => Zsum 1 (cnz - 1) (fun K =>
+      (Rx_spec scd nx ny nz wy wz rx I J K * g I J K)%F)))
+    = Zsum 0 (nx - 1) (fun i => Zsum 1 (ny - 1) (fun j => Zsum 1 (nz - 1) (fun k =>
+      (rx i j k * prolong_x scd yn zn nx ny nz g (fun _ _ _ => 0%F) i j k)%F))).
+  Proof. exact (restrict_x_adjoint Fth scd cnx cny cnz nx ny nz wy wz yn zn
+                  Hcx Hcy Hcz Hnx Hny Hnz Wy Wz rx g). Qed.
+
+  Theorem restriction_is_transpose_of_prolongation_y (ry g : Z -> Z -> Z -> F) :
+    (forall I J K, (I <= 0 \/ cnx - 1 <= I \/ K <= 0 \/ cnz - 1 <= K) -> g I J K = 0%F) ->
+    Zsum 1 (cnx - 1) (fun I => Zsum 0 (cny - 1) (fun J => Zsum 1 (cnz - 1) (fun K =>
+      (Ry_spec scd nx ny nz wx wz ry I J K * g I J K)%F)))
+    = Zsum 1 (nx - 1) (fun i => Zsum 0 (ny - 1) (fun j => Zsum 1 (nz - 1) (fun k =>
+      (ry i j k * prolong_y scd xn zn nx ny nz g (fun _ _ _ => 0%F) i j k)%F))).
+  Proof. exact (restrict_y_adjoint Fth scd cnx cny cnz nx ny nz wx wz xn zn
+                  Hcx Hcy Hcz Hnx Hny Hnz Wx Wz ry g). Qed.
+
+  Theorem restriction_is_transpose_of_prolongation_z (rz g : Z -> Z -> Z -> F) :
+    (forall I J K, (I <= 0 \/ cnx - 1 <= I \/ J <= 0 \/ cny - 1 <= J) -> g I J K = 0%F) ->
+    Zsum 1 (cnx - 1) (fun I => Zsum 1 (cny - 1) (fun J => Zsum 0 (cnz - 1) (fun K =>
+      (Rz_spec scd nx ny nz wx wy rz I J K * g I J K)%F)))
+    = Zsum 1 (nx - 1) (fun i => Zsum 1 (ny - 1) (fun j => Zsum 0 (nz - 1) (fun k =>
+      (rz i j k * prolong_z scd xn yn nx ny nz g (fun _ _ _ => 0%F) i j k)%F))).
+  Proof. exact (restrict_z_adjoint Fth scd cnx cny cnz nx ny nz wx wy xn yn
+                  Hcx Hcy Hcz Hnx Hny Hnz Wx Wy rz g). Qed.
+End C04adj.
+
+(* --- conservation, every pattern: the coarse parameters have the same total -- *)
+Section C04c.
+  Context {F : Type} {O : FOps F}.
+  Hypothesis Fth : field_theory F0 F1 Fadd Fmul Fsub Fopp Fdiv Finv (@eq F).
+  Theorem coarse_parameters_conserve_the_total scd cx cy cz nx ny nz (p : Z -> Z -> Z -> F) :
+    0 <= cx -> 0 <= cy -> 0 <= cz ->
+    nx = (if coars scd 0 then 2*cx else cx) ->
+    ny = (if coars scd 1 then 2*cy else cy) ->
+    nz = (if coars scd 2 then 2*cz else cz) ->
+    sum3 cx cy cz (fun I J K => restrict_param scd p I J K) = sum3 nx ny nz p.
+  Proof. intros H1 H2 H3 H4 H5 H6. exact (restrict_param_conserves_total Fth scd cx cy cz nx ny nz H1 H2 H3 H4 H5 H6 p). Qed.
+End C04c.
+
+(* --- signs: over the REAL numbers, on a mesh with positive widths ---------- *)
+(* (order statements cannot be made over an abstract field; these two theorems
+   use Coq's axiomatised reals -- see Print Assumptions below) *)
+From Coq Require Import Reals.
+From V Require Import Proofs.Interp Proofs.ProlongR.
+Section C04R.
+  (* every interpolation weight lies in [0,1] *)
+  Theorem interpolation_weights_are_in_the_unit_interval (x h : Z -> R) :
+    (forall j, (0 < h j)%R) -> (forall j, x (j + 1)%Z = (x j + h j)%R) ->
+    forall j I, (0 <= P1 x j I <= 1)%R.
+  Proof. exact (P1_bounds x h). Qed.
+
+  (* ... and so does every weight the generated restrict_weights computes *)
+  Theorem restriction_weights_are_in_the_unit_interval
+    (nodes cell_centers h cnodes ccell_centers ch : Z -> R) (n lh lch ln : Z) :
+    (forall j, (0 < h j)%R) ->
+    (forall j, cell_centers j = (nodes j + h j / (1+1))%R) ->
+    (forall j, nodes (j+1)%Z = (nodes j + h j)%R) ->
+    (forall I, cnodes I = nodes (2*I)%Z) ->
+    (forall I, ch I = (h (2*I)%Z + h (2*I+1)%Z)%R) ->
+    (forall I, ccell_centers I = (cnodes I + ch I / (1+1))%R) ->
+    forall I,
+    let RW := restrict_weights n lh lch ln nodes cell_centers h cnodes ccell_centers ch in
+    ((1 <= I < n)%Z -> (0 <= fst (fst RW) I <= 1)%R) /\
+    snd (fst RW) I = 1%R /\
+    ((0 <= I < n - 1)%Z -> (0 <= snd RW I <= 1)%R).
+  Proof. exact (restrict_weights_bounds nodes cell_centers h cnodes ccell_centers ch n lh lch ln). Qed.
+End C04R.
+
 Print Assumptions restrict_is_tensor_product.
 Print Assumptions weight_left_closed_form.
 Print Assumptions weight_right_closed_form.
@@ -94,3 +191,9 @@ Print Assumptions restriction_weight_is_interpolation_weight.
 Print Assumptions interpolation_weights_sum_to_one.
 Print Assumptions even_node_copies_coarse_node.
 Print Assumptions coarse_parameter_is_sum_of_8_children.
+Print Assumptions restriction_is_transpose_of_prolongation_x.
+Print Assumptions restriction_is_transpose_of_prolongation_y.
+Print Assumptions restriction_is_transpose_of_prolongation_z.
+Print Assumptions coarse_parameters_conserve_the_total.
+Print Assumptions interpolation_weights_are_in_the_unit_interval.
+Print Assumptions restriction_weights_are_in_the_unit_interval.
